@@ -4,6 +4,7 @@
 use super::verif_st_raw::*;
 use super::*;
 use crate::machine::bus::verif_c07u::*;
+use crate::machine::bus::verif_st_bus::{differ_outside_cpu_projection, same_cpu_projection_as};
 use crate::verif_shim::*;
 use crate::{vassert, vcover};
 
@@ -45,4 +46,42 @@ pub(crate) fn c07_master_reset() {
     vassert!(bus_master_reset_post(&old.bus, &m.bus), "C07.R.master.bus-and-board");
 }
 
-crate::replay_table!(verif_replay_c07; c07_cpu_reset, c07_master_reset,);
+/// R.indep (2-safety, one edge, two machines): machines that agree on everything but the extension
+/// board (and the status/UART bytes the statement does not mention) still agree after a clock edge
+/// whose executed word does not address 0xF0-0xFB.  With R.load (the CPU projection after a load does
+/// not depend on the pre-state) this is the induction step of "a program using only RAM and the
+/// FC-FF registers runs cycle-for-cycle as on a newly created machine".
+#[cfg_attr(kani, kani::proof)]
+pub(crate) fn c07_x_edge_independent_of_board() {
+    let mut m1 = any_raw();
+    vassume(wf_raw(&m1));
+    let mut m2 = m1.clone();
+    // the second machine differs arbitrarily in the board and in MISR / UART bytes / timer
+    m2.bus = differ_outside_cpu_projection(&m1.bus);
+    vassume(wf_raw(&m2));
+    vcover!(m1.state == State::Running && m1.pending_wait_for_memory.is_none(), "pre.running");
+    m1.trigger_clock_edge();
+    m2.trigger_clock_edge();
+    // the word just executed and the address it drove on the bus (same in both: control state agrees)
+    let w = cur_word(&m1);
+    let a_sel = if w.contains(Word::MRGAA3) { ir(&m1) & 3 } else {
+        ((w.contains(Word::MRGAA2) as u8) << 2) | ((w.contains(Word::MRGAA1) as u8) << 1) | (w.contains(Word::MRGAA0) as u8) };
+    let addr = reg(&m1, a_sel);
+    let touches_board_or_status = (w.contains(Word::BUSEN) || w.contains(Word::BUSWR)) && addr >= 0xF0 && addr <= 0xFB;
+    if !touches_board_or_status {
+        let mut m2p = m2.clone();
+        m2p.bus = same_cpu_projection_as(&m2.bus, &m1.bus);
+        vassert!(raw_same(&m1, &m2p), "C07.R.indep.edge-is-a-function-of-the-cpu-projection");
+    }
+}
+
+#[cfg_attr(kani, kani::proof)]
+pub(crate) fn c07_canary() {
+    let mut m = any_raw();
+    let old = m.clone();
+    m.cpu_reset();
+    // wrong on purpose: claims a CPU reset clears the input registers as a master reset does
+    vassert!(bus_master_reset_post(&old.bus, &m.bus), "CANARY");
+}
+
+crate::replay_table!(verif_replay_c07; c07_cpu_reset, c07_master_reset, c07_x_edge_independent_of_board, c07_canary,);
